@@ -454,9 +454,39 @@ func eScenario(r *rand.Rand) ([]database.Command, string, eOpts) {
 		w := ePlain[r.Intn(12)]
 		var cmds []database.Command
 		n := 55 + r.Intn(16)
-		small := r.Intn(2) == 0 // ... or at a small limit with a group of equal scores straddling the cut
+		variant := r.Intn(3)
+		small := variant == 1 // ... or at a small limit with a group of equal scores straddling the cut
 		if small {
 			n = 64 + r.Intn(40)
+		}
+		if variant == 2 {
+			// ... or 70-100 entries each holding some of three query words, so that entries far down the ranking still
+			// resemble the query: every candidate of a large answer takes part in the re-ranking, not only the first fifty
+			n = 70 + r.Intn(31)
+			ws := []string{ePlain[r.Intn(12)], eActions[r.Intn(len(eActions))], eTargets[r.Intn(len(eTargets))]}
+			var cmds []database.Command
+			for i := 0; i < n; i++ {
+				c := eGenCommand(r)
+				c.Platform = nil
+				some := false
+				for _, x := range ws {
+					if r.Intn(10) < 6 {
+						c.Description = x + " " + c.Description
+						some = true
+					}
+				}
+				if !some {
+					c.Description = ws[i%3] + " " + c.Description
+				}
+				cmds = append(cmds, c)
+			}
+			o.Limit = []int{n + 3, 60, 100, 51}[r.Intn(4)]
+			o.NLP = r.Intn(6) != 0
+			o.AllPlatforms = true
+			if r.Intn(5) != 0 {
+				o.Boosts = []eBoost{{Word: ints(ws[r.Intn(3)/2]), F: []string{"2", "1.5", "3"}[r.Intn(3)]}} // mostly the plain word: action and target words get a fixed weight under enhancement
+			}
+			return cmds, strings.Join(ws, " "), o
 		}
 		twin := eGenCommand(r)
 		for i := 0; i < n; i++ {
